@@ -44,4 +44,73 @@ theorem root_plus' (x y c p q' : ℝ) (hx : x ≠ 0) (hy : y = -x * (p + q')) (h
     (-y + Real.sqrt (y ^ 2 - 4 * x * c)) / (2 * x) = p := by
   subst hy hc; exact root_plus x p q' hx hsel
 
+/-! ### The cancellation-free form of the same roots (what the inverses compute since finding S51-C10a/b was repaired)
+
+`(-y - √D) / (2x)` with `D = y² - 4 x c` loses every digit when `y < 0` and `|4 x c| ≪ y²` (low loading: `-y` and `√D` agree to all
+digits) and is `0/0` when `x = 0`.  Multiplying numerator and denominator by `√D - y` gives `2c / (√D - y)`: for `y < 0` a sum of two
+non-negative numbers in the denominator.  It is the SAME root (`stable_minus_eq`), not a choice between the two; for `y ≥ 0` the
+textbook form is already free of cancellation and is kept (there `√D - y` is the difference that cancels). -/
+
+/-- for `x ≠ 0` the branch form is the textbook `-√` root, whatever the sign of `y` -/
+theorem stable_minus_eq (x y c : ℝ) (hx : x ≠ 0) (hD : 0 ≤ y ^ 2 - 4 * x * c) :
+    (if y < 0 then 2 * c else -y - Real.sqrt (y ^ 2 - 4 * x * c)) / (if y < 0 then Real.sqrt (y ^ 2 - 4 * x * c) - y else 2 * x)
+      = (-y - Real.sqrt (y ^ 2 - 4 * x * c)) / (2 * x) := by
+  by_cases hy : y < 0
+  · simp only [if_pos hy]
+    have hs := Real.sqrt_nonneg (y ^ 2 - 4 * x * c)
+    have hss := Real.mul_self_sqrt hD
+    have hden : Real.sqrt (y ^ 2 - 4 * x * c) - y ≠ 0 := by linarith
+    rw [div_eq_div_iff hden (mul_ne_zero two_ne_zero hx)]
+    nlinarith [hss]
+  · simp only [if_neg hy]
+
+/-- when the leading coefficient vanishes (BET with `N = C`, GAB with `C = 1`, Quadratic with `Kb = 0`) and `y < 0`, the branch form is
+the root `-c / y` of the linear equation `y q + c = 0` that is left -/
+theorem stable_minus_linear (x y c : ℝ) (hx : x = 0) (hy : y < 0) :
+    (if y < 0 then 2 * c else -y - Real.sqrt (y ^ 2 - 4 * x * c)) / (if y < 0 then Real.sqrt (y ^ 2 - 4 * x * c) - y else 2 * x)
+      = -c / y := by
+  subst hx
+  simp only [if_pos hy]
+  have : y ^ 2 - 4 * 0 * c = (-y) ^ 2 := by ring
+  rw [this, Real.sqrt_sq (by linarith)]
+  have hy' : y ≠ 0 := ne_of_lt hy
+  have : -y - y ≠ 0 := by intro h; apply hy'; linarith
+  field_simp
+  ring
+
+/-- general form used by the model files: if `y = -x (p+q')`, `c = x p q'` the branch form is `p` under the same selection rule as
+`root_minus'` -/
+theorem stable_minus' (x y c p q' : ℝ) (hx : x ≠ 0) (hy : y = -x * (p + q')) (hc : c = x * p * q')
+    (hsel : (0 < x → p ≤ q') ∧ (x < 0 → q' ≤ p)) :
+    (if y < 0 then 2 * c else -y - Real.sqrt (y ^ 2 - 4 * x * c)) / (if y < 0 then Real.sqrt (y ^ 2 - 4 * x * c) - y else 2 * x) = p := by
+  have hD : 0 ≤ y ^ 2 - 4 * x * c := by
+    have : y ^ 2 - 4 * x * c = (x * (p - q')) ^ 2 := by subst hy hc; ring
+    rw [this]; positivity
+  rw [stable_minus_eq x y c hx hD]
+  exact root_minus' x y c p q' hx hy hc hsel
+
+/-- the `+√` root (DSLangmuir: `x q² + y q - n = 0`) in its branch form: for `y > 0` the quotient `2n / (y + √D)` -/
+theorem stable_plus_eq (x y n : ℝ) (hx : x ≠ 0) (hD : 0 ≤ y ^ 2 - 4 * x * (-n)) :
+    (if y > 0 then 2 * n else -y + Real.sqrt (y ^ 2 - 4 * x * (-n))) / (if y > 0 then y + Real.sqrt (y ^ 2 - 4 * x * (-n)) else 2 * x)
+      = (-y + Real.sqrt (y ^ 2 - 4 * x * (-n))) / (2 * x) := by
+  by_cases hy : y > 0
+  · simp only [if_pos hy]
+    have hs := Real.sqrt_nonneg (y ^ 2 - 4 * x * (-n))
+    have hss := Real.mul_self_sqrt hD
+    have hden : y + Real.sqrt (y ^ 2 - 4 * x * (-n)) ≠ 0 := by
+      have : 0 < y := hy
+      linarith
+    rw [div_eq_div_iff hden (mul_ne_zero two_ne_zero hx)]
+    nlinarith [hss]
+  · simp only [if_neg hy]
+
+theorem stable_plus' (x y n p q' : ℝ) (hx : x ≠ 0) (hy : y = -x * (p + q')) (hc : -n = x * p * q')
+    (hsel : (0 < x → q' ≤ p) ∧ (x < 0 → p ≤ q')) :
+    (if y > 0 then 2 * n else -y + Real.sqrt (y ^ 2 - 4 * x * (-n))) / (if y > 0 then y + Real.sqrt (y ^ 2 - 4 * x * (-n)) else 2 * x) = p := by
+  have hD : 0 ≤ y ^ 2 - 4 * x * (-n) := by
+    have : y ^ 2 - 4 * x * (-n) = (x * (p - q')) ^ 2 := by rw [hc]; subst hy; ring
+    rw [this]; positivity
+  rw [stable_plus_eq x y n hx hD]
+  exact root_plus' x y (-n) p q' hx hy hc hsel
+
 end PgVerif.Quad
